@@ -76,25 +76,17 @@ func checkErrorList(text string, errs []txt.Error) error {
 
 // checkRenderings verifies the terminal and the JSON rendering of the errors.
 func checkRenderings(errs []txt.Error, jsonOut string) error {
-	// Terminal report (no colours): rebuilt from the errors' own data.
-	want := ""
-	reflower := tf.NewReflower(80, "\n")
-	for _, e := range errs {
-		want += fmt.Sprintf("\n[SYNTAX ERROR] in line %d", e.LineNumber())
-		if e.Origin() != "" {
-			want += " of file " + e.Origin()
-		}
-		want += "\n    " + strings.ReplaceAll(e.LineText(), "\t", " ") + "\n"
-		want += "    " + strings.Repeat(" ", e.Position()) + strings.Repeat("^", e.Length()) + "\n"
-		want += reflower.Reflow(e.Message(), []string{"    "}) + "\n"
-	}
-	got := util.PrettifyParsingError(app.NewParserErrors(errs), tf.NewStyler(tf.COLOUR_THEME_NO_COLOUR)).Error()
-	if got != want {
-		return fmt.Errorf("terminal report differs from the errors' positions\ngot:  %s\nwant: %s", quoteShort(got), quoteShort(want))
+	// Terminal report: read tolerantly (wording and framing are presentation). For every error, in
+	// order: a line that names "line <N>", later a line that quotes the faulty line (tabs shown as
+	// blanks), and — if a line of blanks and carets follows — exactly Length carets starting
+	// Position characters after the start of the quoted text.
+	plain := util.PrettifyParsingError(app.NewParserErrors(errs), tf.NewStyler(tf.COLOUR_THEME_NO_COLOUR)).Error()
+	if err := readTerminalReport(plain, errs); err != nil {
+		return fmt.Errorf("%v\nreport: %s", err, quoteShort(plain))
 	}
 	for _, theme := range []tf.ColourTheme{tf.COLOUR_THEME_DARK, tf.COLOUR_THEME_LIGHT, tf.COLOUR_THEME_BASIC} {
 		styled := util.PrettifyParsingError(app.NewParserErrors(errs), tf.NewStyler(theme)).Error()
-		if stripSGR(styled) != stripSGR(want) {
+		if stripSGR(styled) != stripSGR(plain) {
 			return fmt.Errorf("terminal report under theme %s differs after removing SGR sequences", theme)
 		}
 	}
@@ -137,6 +129,63 @@ func checkRenderings(errs []txt.Error, jsonOut string) error {
 		}
 	}
 	return nil
+}
+
+func readTerminalReport(report string, errs []txt.Error) error {
+	lines := strings.Split(report, "\n")
+	li := 0
+	for i, e := range errs {
+		marker := fmt.Sprintf("line %d", e.LineNumber())
+		for li < len(lines) && !containsWord(lines[li], marker) {
+			li++
+		}
+		if li >= len(lines) {
+			return fmt.Errorf("terminal report does not name line %d for error %d", e.LineNumber(), i)
+		}
+		quoted := strings.ReplaceAll(e.LineText(), "\t", " ")
+		qi := li + 1
+		col := -1
+		for qi < len(lines) {
+			if k := strings.Index(lines[qi], quoted); k >= 0 && (strings.TrimSpace(quoted) != "" || strings.TrimSpace(lines[qi]) == "") {
+				col = utf8.RuneCountInString(lines[qi][:k])
+				break
+			}
+			qi++
+		}
+		if col < 0 {
+			return fmt.Errorf("terminal report does not quote the faulty line %q of error %d", e.LineText(), i)
+		}
+		li = qi
+		if qi+1 < len(lines) {
+			cl := lines[qi+1]
+			if strings.Trim(cl, " ^") == "" && strings.Contains(cl, "^") {
+				carets := strings.Count(cl, "^")
+				first := strings.Index(cl, "^")
+				if carets != e.Length() || first-col != e.Position() {
+					return fmt.Errorf("terminal report marks %d characters from column %d of line %d; the error has position %d and length %d", carets, first-col, e.LineNumber(), e.Position(), e.Length())
+				}
+				li = qi + 1
+			} else if e.Length() > 0 && strings.Trim(cl, " ^") == "" {
+				return fmt.Errorf("terminal report has no caret line for error %d (length %d)", i, e.Length())
+			}
+		}
+	}
+	return nil
+}
+
+// containsWord: marker occurs and is not directly followed by a digit (so "line 1" does not match "line 12").
+func containsWord(s, marker string) bool {
+	for from := 0; ; {
+		k := strings.Index(s[from:], marker)
+		if k < 0 {
+			return false
+		}
+		end := from + k + len(marker)
+		if end >= len(s) || s[end] < '0' || s[end] > '9' {
+			return true
+		}
+		from = end
+	}
 }
 
 // stripSGR removes `ESC [ digits/semicolons m` sequences with a hand-written scanner.
